@@ -494,7 +494,9 @@ func (c *converter) AppCall(calls []transpiler.AppCall, valueUsed bool) ([]strin
 	callString := strings.Join(callStrings, " | ")
 
 	if valueUsed {
-		callString = fmt.Sprintf("$(%s)", callString)
+		// Command substitution removes all trailing newlines. To only remove the final newline of the output, a
+		// guard character is printed after the output (the exit code is preserved) and removed again afterwards.
+		callString = fmt.Sprintf("$(%s; _e=$?; printf x; exit ${_e})", callString)
 		helper1 := c.nextHelperVar()
 		helper2 := c.nextHelperVar()
 
@@ -505,6 +507,9 @@ func (c *converter) AppCall(calls []transpiler.AppCall, valueUsed bool) ([]strin
 			return nil, err
 		}
 		c.VarDefinition(helper2, "$?", false)
+		name := c.varName(helper1, false)
+		c.addLine(fmt.Sprintf(`%s="${%s%%x}"`, name, name))
+		c.addLine(fmt.Sprintf(`%s="${%s%%$'\n'}"`, name, name))
 		return []string{eval, "", c.varEvaluationString(helper2, false)}, nil // TODO: Return stderr (https://github.com/monstermichl/TypeShell/issues/28).
 	}
 	c.addLine(callString)
